@@ -666,3 +666,72 @@ Lemma set_afc_creates h pay : let l := Iso.mkLpkt h Iso.NoAF pay in Iso.wf_lpkt 
   SetAdaptationFieldControl (Iso.ser_pkt l) 3 =
     (Iso.ser_pkt (Iso.mkLpkt (Iso.with_afc h 3) (Iso.AF Iso.laf0 (repeatN 255 181)) [255]), None).
 Proof. intros l W. split; [exact (set_afc2_creates h pay W) | exact (proj1 (set_afc3_creates h pay W))]. Qed.
+
+Definition nonempty_b {A} (l : list A) : bool := match l with [] => false | _ => true end.
+
+(* ------------------------------------------------------------------ SetAdaptationFieldControl(11) on an adaptation-field-only packet:
+   the last byte of the packet becomes payload if at least one stuffing byte can be given up *)
+Lemma set_afc_byte_ser h X v : Iso.hdr_ok h -> is_bytes X -> len X = 184 -> v < 4 ->
+  let p := Iso.ser_hdr h ++ X in
+  upd p 3 (N.lor (N.land (get p 3) (not8 48)) (w8 (N.shiftl v 4))) = Iso.ser_hdr (Iso.with_afc h v) ++ X.
+Proof.
+  intros HOK XB LX Hv p.
+  assert (Iso.hdr_ok (Iso.with_afc h v)) as HOKv.
+  { destruct HOK as (A & B & C' & D & F & G & I & J). unfold Iso.hdr_ok, Iso.with_afc.
+    cbn [Iso.sync Iso.tei Iso.pusi Iso.tp Iso.pid Iso.tsc Iso.afc Iso.cc]. repeat split; assumption. }
+  assert (forall h', Iso.hdr_ok h' -> is_pkt (Iso.ser_hdr h' ++ X)) as PK.
+  { intros h' O. split; [rewrite app_length; unfold len in LX; cbn [length Iso.ser_hdr]; lia|].
+    apply is_bytes_app. split; [apply ser_hdr_bytes; exact O | exact XB]. }
+  destruct (set_afc_byte p (PK h HOK) v Hv) as (E & F & P1). cbv zeta in E, F, P1.
+  apply hdr_tail_ext; [exact P1 | exact (PK _ HOKv) | |].
+  - rewrite E. unfold p. rewrite !hdr_of_ser by assumption. reflexivity.
+  - intros j J. rewrite F by lia. unfold get, p.
+    rewrite !nthN_app_r by (rewrite len_ser_hdr; lia). rewrite !len_ser_hdr. reflexivity.
+Qed.
+
+Lemma set_afc3_on_af_only h a st : let l := Iso.mkLpkt h (Iso.AF a st) [] in Iso.wf_lpkt l ->
+  SetAdaptationFieldControl (Iso.ser_pkt l) 3 =
+  if nonempty_b st
+  then (Iso.ser_pkt (Iso.mkLpkt (Iso.with_afc h 3) (Iso.AF a (repeatN 255 (len st - 1))) (dropN (len st - 1) st)), None)
+  else (Iso.ser_pkt (Iso.mkLpkt (Iso.with_afc h 3) (Iso.AF a []) []), Some E.AdaptationFieldTooLarge).
+Proof.
+  intros l W.
+  pose proof (wf_is_pkt l W) as PK. pose proof (wf_len l W) as L188.
+  destruct (wf_flags l W) as (_ & HA & _).
+  assert (Iso.afc h = 2) as A2.
+  { destruct (wf_afc_cases l W) as [[F _]|[(_ & A & _)|(_ & _ & NP)]]; cbn [Iso.lf Iso.lh Iso.lpayload l] in *; congruence. }
+  cbn [Iso.lh l] in HA. rewrite A2 in HA. change (2 / 2 =? 1) with true in HA.
+  assert (Iso.hdr_ok h) as HOK by (destruct W as (X & _); exact X).
+  assert (Iso.laf_ok a) as OK by (destruct W as (_ & _ & AO & _); exact (proj1 AO)).
+  pose proof (len_body_pos a) as LBP.
+  set (body := Iso.ser_af_body a) in *.
+  set (p := Iso.ser_pkt l) in *.
+  assert (p = Iso.ser_hdr h ++ (len body + len st) :: body ++ (st ++ [])) as PE by apply ser_pkt_af.
+  rewrite app_nil_r in PE.
+  assert (len body + len st = 183) as LR.
+  { rewrite PE in L188. rewrite len_app, len_ser_hdr, len_cons, len_app in L188. lia. }
+  rewrite LR in PE.
+  assert (is_bytes (183 :: body ++ st)) as XB.
+  { destruct PK as [_ B]. rewrite PE in B. apply is_bytes_app in B. exact (proj2 B). }
+  unfold SetAdaptationFieldControl. rewrite HA. cbn [negb andb]. change (3 =? 3) with true. cbv iota.
+  rewrite PE.
+  rewrite (set_afc_byte_ser h (183 :: body ++ st) 3 HOK XB ltac:(rewrite len_cons, len_app; lia) ltac:(lia)).
+  set (h3 := Iso.with_afc h 3).
+  assert (AFP.Length (Iso.ser_hdr h3 ++ 183 :: body ++ st) = 183) as LEN by (unfold AFP.Length; apply q_get4; reflexivity).
+  rewrite LEN. change (183 =? 183) with true. cbv iota.
+  assert (AFP.stuffingStart (Iso.ser_hdr h3 ++ 183 :: body ++ st) = 5 + len body) as SSQ
+    by (apply stuffing_start_body; [reflexivity | exact OK | fold body; lia]).
+  rewrite SSQ.
+  destruct st as [|s0 st'].
+  - rewrite len_nil in LR. cbn [nonempty_b]. replace (5 + len body <? PacketSize) with false
+      by (symmetry; apply N.ltb_ge; unfold PacketSize; lia).
+    f_equal. rewrite ser_pkt_af. fold body h3. rewrite len_nil, !app_nil_r, N.add_0_r.
+    replace (len body) with 183 by lia. reflexivity.
+  - cbn [nonempty_b]. rewrite len_cons in LR.
+    replace (5 + len body <? PacketSize) with true by (symmetry; apply N.ltb_lt; unfold PacketSize; lia).
+    change 182%Z with (Z.of_N 182).
+    pose proof (set_len_stuff (Iso.ser_hdr h3) 183 a (s0 :: st') eq_refl OK) as SL. fold body in SL.
+    rewrite SL by (rewrite ?len_cons; lia). f_equal. rewrite ser_pkt_af. fold body h3. rewrite len_repeatN, len_cons.
+    replace (1 + len st' - 1) with (len st') by lia.
+    replace (len body + len st') with 182 by lia. replace (182 - len body) with (len st') by lia. reflexivity.
+Qed.
